@@ -152,12 +152,18 @@ func (rt *runtime) cmplEvaluateNodeDoWhileStatement(node *nodeDoWhileStatement) 
 	result := emptyValue
 resultBreak:
 	for {
+		iteration := emptyValue
 		for _, node := range node.body {
 			value := rt.cmplEvaluateNodeStatement(node)
 			switch value.kind {
 			case valueResult:
 				switch value.evaluateBreakContinue(labels) {
 				case resultReturn:
+					// The body is a flattened block: the completion carries the value of
+					// the statements of this iteration that precede it (12.1)
+					if !iteration.isEmpty() && value.evaluateBreakContinue(nil) == resultReturn && value.resultValue().isEmpty() {
+						return value.withResultValue(iteration)
+					}
 					return value
 				case resultBreak:
 					if carried := value.resultValue(); !carried.isEmpty() {
@@ -173,6 +179,7 @@ resultBreak:
 			case valueEmpty:
 			default:
 				result = value
+				iteration = value
 			}
 		}
 	resultContinue:
@@ -220,6 +227,7 @@ func (rt *runtime) cmplEvaluateNodeForInStatement(node *nodeForInStatement) Valu
 				into = toValue(getIdentifierReference(rt, rt.scope.lexical, identifier, false, -1))
 			}
 			rt.putValue(into.reference(), stringValue(name))
+			iteration := emptyValue
 			for _, node := range body {
 				value := rt.cmplEvaluateNodeStatement(node)
 				switch value.kind {
@@ -227,17 +235,30 @@ func (rt *runtime) cmplEvaluateNodeForInStatement(node *nodeForInStatement) Valu
 					switch value.evaluateBreakContinue(labels) {
 					case resultReturn:
 						result = value
+						if !iteration.isEmpty() && value.resultValue().isEmpty() {
+							result = value.withResultValue(iteration)
+						}
 						obj = nil
 						return false
 					case resultBreak:
+						if carried := value.resultValue(); !carried.isEmpty() {
+							enumerateValue = carried
+						}
+						if !enumerateValue.isEmpty() {
+							result = enumerateValue
+						}
 						obj = nil
 						return false
 					case resultContinue:
+						if carried := value.resultValue(); !carried.isEmpty() {
+							enumerateValue = carried
+						}
 						return true
 					}
 				case valueEmpty:
 				default:
 					enumerateValue = value
+					iteration = value
 				}
 			}
 			return true
@@ -293,12 +314,18 @@ resultBreak:
 			}
 		}
 
+		iteration := emptyValue
 		for _, node := range body {
 			value := rt.cmplEvaluateNodeStatement(node)
 			switch value.kind {
 			case valueResult:
 				switch value.evaluateBreakContinue(labels) {
 				case resultReturn:
+					// The body is a flattened block: the completion carries the value of
+					// the statements of this iteration that precede it (12.1)
+					if !iteration.isEmpty() && value.evaluateBreakContinue(nil) == resultReturn && value.resultValue().isEmpty() {
+						return value.withResultValue(iteration)
+					}
 					return value
 				case resultBreak:
 					if carried := value.resultValue(); !carried.isEmpty() {
@@ -314,6 +341,7 @@ resultBreak:
 			case valueEmpty:
 			default:
 				result = value
+				iteration = value
 			}
 		}
 	resultContinue:
@@ -431,12 +459,18 @@ resultBreakContinue:
 			// Stahp: while (false) ...
 			break
 		}
+		iteration := emptyValue
 		for _, node := range body {
 			value := rt.cmplEvaluateNodeStatement(node)
 			switch value.kind {
 			case valueResult:
 				switch value.evaluateBreakContinue(labels) {
 				case resultReturn:
+					// The body is a flattened block: the completion carries the value of
+					// the statements of this iteration that precede it (12.1)
+					if !iteration.isEmpty() && value.evaluateBreakContinue(nil) == resultReturn && value.resultValue().isEmpty() {
+						return value.withResultValue(iteration)
+					}
 					return value
 				case resultBreak:
 					if carried := value.resultValue(); !carried.isEmpty() {
@@ -452,6 +486,7 @@ resultBreakContinue:
 			case valueEmpty:
 			default:
 				result = value
+				iteration = value
 			}
 		}
 	}
